@@ -97,6 +97,11 @@ def decode_store(ev, allow_raw=False, allow_fxp=False, allow_scaled_src=False):
     if si.raw and not allow_raw:
         raise Unsupported('raw store')
     si.pre, si.post = _recv_snaps(ev)
+    if si.raw and si.init_args is not None and isinstance(si.init_args.get('n_frac'), int) and si.init_args.get('n_word') is None and si.init_args.get('dtype') is None \
+            and si.init_args.get('like') is None and si.post is not None and si.post.n_frac != si.init_args['n_frac']:
+        # (size inference limited the word and shortened the fraction length: the raw value was given for the fraction length asked and is
+        #  rescaled to the one chosen - C06's subject, not a plain raw store)
+        raise Unsupported('raw value given for another fraction length than the one inferred')
     si.values, si.shape, si.is_complex = exact_values(si.carrier)
     return si
 
